@@ -135,6 +135,55 @@ CHECKS = {
         "convergence only, HTTPS listeners by a liveness probe only; known design-level divergences are listed in "
         "known_findings.json (one entry per verb/class).",
     ),
+    "C03": (
+        "exploration",
+        "differential strict/tolerant reader monitor on the bytes a recording backend receives from a live worker",
+        "DESIGN.md section 3 C03",
+        "Grammar-derived HTTP/1.1 requests and 11 families of smuggling mutations (CL.TE/TE.CL/TE.TE obfuscations, "
+        "CL variants, bare LF, obs-fold, control bytes, Host tricks, HTTP/1.0+TE, trailers...) at random segmentations, "
+        "plus an HTTP/2-over-TLS stage (pseudo-header faults, connection-specific headers, CR/LF/NUL injection, CL vs "
+        "DATA mismatch, trailers), through a live worker to a recording backend: backend bytes must parse with a strict "
+        "RFC 9112 reader identically to two tolerant readers, no request the client did not send may appear, every header "
+        "line is accounted for, valid requests arrive intact, a victim connection gets its own response. Held on the "
+        "inputs explored.",
+        "Trusted: the check's own strict/tolerant readers; h2c backends are not exercised here (H1 backend bytes only); "
+        "timing-dependent candidates count only when a slow re-run reproduces them.",
+    ),
+    "C09": (
+        "fault_enumeration",
+        "verdict-implication monitor over scripted fake workers on a real in-process CommandHub",
+        "DESIGN.md section 3 C09",
+        "A real CommandHub thread with 1..4 scripted fake workers (each backed by a dummy child pid) and 1..8 scripted "
+        "clients on the unix command socket: all assignments of 8 worker behaviours (ok, failure, silent, close, duplicate, "
+        "late, processing-then-final, unknown id) for W<=2 x 7 verb families are enumerated, larger ones sampled, plus "
+        "overlapping-deadline and same-tick race blocks. Every client request must get exactly one final answer within "
+        "worker_timeout+slack, OK only if every live worker acknowledged in time, right client/content, hub thread alive "
+        "and responsive. Misses are re-run on a fresh hub before counting.",
+        "Trusted: fake workers stand in for real worker processes (real ones + SIGSTOP/SIGKILL are not driven); partial-"
+        "result OK of query/metrics/stop verbs is a known finding; SoftStop is not driven (waits by design).",
+    ),
+    "C13": (
+        "exploration",
+        "ordered-multiset header diff against a documented transformation table, on a live worker",
+        "DESIGN.md section 3 C13",
+        "Generated header lists (duplicates, case variants, cookies incl. the sticky name, hop-by-hop and Connection-listed "
+        "fields, pre-existing X-Forwarded-*/Forwarded/X-Real-IP/X-Request-Id/correlation headers, trailers) x listener "
+        "settings x {H1/TCP, H1/TLS, H2/TLS} fronts x {H1, h2c} recording backends x peers on 127.x.y.z, [::1] or behind "
+        "PROXY v2: the backend's list must equal f(client list) and the client's response list f(backend list) for a "
+        "transformation table written from the statement and docs; everything outside the table must be identical.",
+        "Trusted: the transformation table; fields the documentation is silent about are exempt and counted.",
+    ),
+    "C15": (
+        "exploration",
+        "consume-exactly differential monitor on the real frame decoder (part a)",
+        "DESIGN.md section 3 C15 (part a)",
+        "preface / frame_header / frame_body of the real parser on an exhaustive grid (20 types x 256 flags x 17 lengths x "
+        "7 stream ids x 3 tail classes = 1.83M points), every prefix of well-formed frames, the repository's fuzz corpus "
+        "and mutants, arbitrary bytes and concatenated streams: Ok must consume exactly 9 + declared length with fields "
+        "equal to an independent RFC 9113 decode, malformed sizes/padding must be errors, never a panic. Live hostile-"
+        "peer part (b) is not included yet.",
+        "Trusted: the independent reference decode; both answers accepted where RFC 9113 leaves the layer open.",
+    ),
 }
 
 ALL = ["C%02d" % i for i in range(1, 21)]
